@@ -497,7 +497,7 @@ func c12Remote(c *an.Ctx) {
 				"a cluster submission must be dominated by maxJobs<=0 or by a successful jobSem.Acquire; "+c.WitnessString(w))
 		})
 	}
-	c.Floor("K3", "sendJob call sites", n, 2)
+	c.Floor("K3", "sendJob call sites", n, 1)
 	// endJob releases the slot
 	w := an.Query{Fn: endJob, Target: an.IsReturn,
 		Barrier: func(in ssa.Instruction) bool {
